@@ -885,10 +885,23 @@ def _chain():
             "inputs": [["x0", {"arr": [[3], elems]}]], "input_kinds": {"x0": "list"}, "internal": [], "sizes": {"i": 3, "j": 1, "k": 1}}
 
 
+def _lead_internal():
+    """`x0[i] -> y0[j, i]` (the internal axis j BEFORE the external one, both of size 2) consumed element-wise: the stored element
+    (external key, internal key) of every backend must be split by the shape mask, not by position (seeded change C03-s1-A)."""
+    f0 = {"name": "f0", "params": [["x0", "x0"]], "outputs": ["y0"], "mapspec": {"inputs": [["x0", ["i"]]], "outputs": [["y0", ["j", "i"]]]},
+          "mapspec_str": "x0[i] -> y0[j, i]", "autogen": False, "ret": [2], "internal": [2], "defaults": [], "bound": []}
+    f1 = {"name": "f1", "params": [["y0", "y0"]], "outputs": ["y1"], "mapspec": {"inputs": [["y0", ["j", "i"]]], "outputs": [["y1", ["j", "i"]]]},
+          "mapspec_str": "y0[j, i] -> y1[j, i]", "autogen": False, "ret": None, "internal": None, "defaults": [], "bound": []}
+    elems = [{"f": "in", "k": [["n", {"s": "x0"}], ["at", {"arr": [[1], [q]]}]]} for q in range(2)]
+    return {"funcs": [f0, f1], "inputs": [["x0", {"arr": [[2], elems]}]], "input_kinds": {"x0": "array"}, "internal": [], "sizes": {"i": 2, "j": 2, "k": 1}}
+
+
 # (desc, cfg) pairs: the prototype pipeline under an interleaved reversed schedule with one executor per output and mixed
 # storages; past failures are appended here
 CORPUS: list = [(_chain(), {"kinds": {"f0": "perm", "f1": "perm", "f2": "perm"}, "entry": "map", "storage": {"": "dict", "f1": "file_array"},
-                            "folder": True, "orders": [[5, 2, 4, 1, 3, 0], [1, 2, 0]]})]
+                            "folder": True, "orders": [[5, 2, 4, 1, 3, 0], [1, 2, 0]]}),
+                (_lead_internal(), {"kinds": {"": "perm"}, "entry": "map", "storage": "dict", "folder": True, "orders": [[1, 0], [3, 1, 2, 0]]}),
+                (_lead_internal(), {"kinds": {"": "perm"}, "entry": "map", "storage": {"": "file_array", "f0": "dict"}, "folder": True, "orders": [[0, 1], [0, 3, 2, 1]]})]
 
 
 MALFORMED = ["seq+executor", "seq+dict", "seq+empty-dict", "par+empty-dict", "no-default", "no-default", "tuple-part-key", "tuple-part-key"]
